@@ -5,7 +5,10 @@
  *
  * Script (see checks/c14.py / gen/memattrs_gen.py for the full grammar):
  *   case <name> / synth <desc> / pre_restrict <set> <flags> / misc <gp> <name> /
- *   mem <numaidx> <bytes> / subtype <numaidx> <word> / show / start / <ops> / end
+ *   mem <numaidx> <bytes> / subtype <numaidx> <word> / info <numaidx> <name> <value> / osindex <gp> <os> /
+ *   env HWLOC_MEMTIERS...=<value> (before synth) / show / start / <ops> / end
+ *   extra op: xmlt [HWLOC_MEMTIERS...=<value>]...  (XML round trip with these variables set during the reload);
+ *   "M tiers nr=.." / "M node <gp> tier=.." lines report MemoryTiersNr / MemoryTier after start and after xmlt
  * Harness-only extras: "show" (header: print the T table) and "sync" (print "S",
  * lets an interactive driver know that everything before was processed).
  * Sets are 0x<hex>, parsed and printed bit by bit here (never through
@@ -197,6 +200,7 @@ static int parse_loc(const char *s, struct locarg *a)
   if (!strcmp(s, "-")) { a->p = NULL; return 0; }
   if (!strcmp(s, "n")) { a->loc.type = HWLOC_LOCATION_TYPE_CPUSET; a->loc.location.cpuset = NULL; return 0; }
   if (!strcmp(s, "b")) { a->loc.type = (enum hwloc_location_type_e)7; a->loc.location.cpuset = NULL; return 0; }
+  if (!strcmp(s, "on")) { a->loc.type = HWLOC_LOCATION_TYPE_OBJECT; a->loc.location.object = NULL; return 0; }
   if (s[0] == 'c' && s[1] == ':') {
     a->tofree = parse_set(s + 2);
     if (!a->tofree) return -1;
@@ -356,13 +360,44 @@ static void op_iset(char **t, int nt)
   if (tofree) hwloc_bitmap_free(tofree);
 }
 
-static void op_xml(void)
+/* memory tiers as left by hwloc_internal_memattrs_guess_memory_tiers(): the MemoryTiersNr info of the
+ * topology and the MemoryTier info of every NUMA node (subtypes are in the T table) */
+static void print_tiers(void)
+{
+  const char *nr; hwloc_obj_t n = NULL;
+  if (!topo) return;
+  nr = hwloc_get_info_by_name(hwloc_topology_get_infos(topo), "MemoryTiersNr");
+  OUT("M tiers nr=%s\n", nr ? nr : "-");
+  while ((n = hwloc_get_next_obj_by_type(topo, HWLOC_OBJ_NUMANODE, n)) != NULL) {
+    const char *t = hwloc_obj_get_info_by_name(n, "MemoryTier");
+    OUT("M node %llu tier=%s\n", (unsigned long long)n->gp_index, t ? t : "-");
+  }
+}
+
+#define MAXENV 16
+static char envnames[MAXENV][64]; static int nenv;
+static int push_env(const char *assign)
+{
+  const char *eq = strchr(assign, '='); size_t l;
+  if (!eq || nenv >= MAXENV) return -1;
+  l = (size_t)(eq - assign);
+  if (!l || l >= sizeof envnames[0] || strncmp(assign, "HWLOC_MEMTIERS", 14)) return -1;   /* only the memory-tier knobs */
+  memcpy(envnames[nenv], assign, l); envnames[nenv][l] = 0;
+  if (setenv(envnames[nenv], eq + 1, 1) < 0) return -1;
+  nenv++;
+  return 0;
+}
+static void pop_env(int keep) { while (nenv > keep) unsetenv(envnames[--nenv]); }
+
+static void op_xml_named(const char *name);
+static void op_xml(void) { op_xml_named("xml"); }
+static void op_xml_named(const char *name)
 {
   char *buf = NULL; int len = 0, rc, e; hwloc_topology_t nt = NULL;
   errno = 0;
   rc = hwloc_topology_export_xmlbuffer(topo, &buf, &len, 0);
   e = errno;
-  if (rc < 0) { res_fail("xml", e); print_table(); return; }
+  if (rc < 0) { res_fail(name, e); print_table(); return; }
   errno = 0;
   rc = hwloc_topology_init(&nt);
   if (rc == 0) {
@@ -372,12 +407,23 @@ static void op_xml(void)
     e = errno;
     if (rc < 0) hwloc_topology_destroy(nt);
   } else e = errno;
-  if (rc < 0) { hwloc_free_xmlbuffer(topo, buf); res_fail("xml", e); print_table(); return; }
+  if (rc < 0) { hwloc_free_xmlbuffer(topo, buf); res_fail(name, e); print_table(); return; }
   hwloc_free_xmlbuffer(topo, buf);
   hwloc_topology_destroy(topo);
   topo = nt;
-  OUT("R xml rc=0 err=OK\n");
+  OUT("R %s rc=0 err=OK\n", name);
+  if (!strcmp(name, "xmlt")) print_tiers();
   print_table();
+}
+
+/* xmlt NAME=VALUE ...: XML round trip with memory-tier environment variables set during the reload */
+static void op_xmlt(char **t, int nt)
+{
+  int keep = nenv, i;
+  for (i = 1; i < nt; i++)
+    if (push_env(t[i]) < 0) { pop_env(keep); res_bad("xmlt"); print_table(); return; }
+  op_xml_named("xmlt");
+  pop_env(keep);
 }
 
 static void do_op(char *line)
@@ -395,12 +441,12 @@ static void do_op(char *line)
   snprintf(copy, sizeof copy, "%s", t[0]);
   for (p = copy; *p; p++) if (*p == ' ') *p = '_';
   op = copy;
-  if (!topo) { res_bad(op); if (!strcmp(op, "restrict") || !strcmp(op, "dup") || !strcmp(op, "xml")) print_table(); return; }
+  if (!topo) { res_bad(op); if (!strcmp(op, "restrict") || !strcmp(op, "dup") || !strcmp(op, "xml") || !strcmp(op, "xmlt")) print_table(); return; }
 
   if (!strcmp(op, "reg")) {
     unsigned long flags; hwloc_memattr_id_t id = (hwloc_memattr_id_t)-1; int rc, e;
     if (nt != 3 || parse_ul(t[2], &flags) < 0) { res_bad(op); return; }
-    errno = 0; rc = hwloc_memattr_register(topo, t[1], flags, &id); e = errno;
+    errno = 0; rc = hwloc_memattr_register(topo, strcmp(t[1], "@null") ? t[1] : NULL, flags, &id); e = errno;
     if (rc < 0) res_fail(op, e); else OUT("R reg rc=0 err=OK id=%u\n", id);
   } else if (!strcmp(op, "getbyname")) {
     hwloc_memattr_id_t id = (hwloc_memattr_id_t)-1; int rc, e;
@@ -477,6 +523,8 @@ static void do_op(char *line)
     print_table();
   } else if (!strcmp(op, "xml")) {
     op_xml();
+  } else if (!strcmp(op, "xmlt")) {
+    op_xmlt(t, nt);
   } else {
     res_bad(op);
   }
@@ -518,10 +566,28 @@ static void header_line(char *line)
       free(o->subtype); o->subtype = strdup(word);
     }
     OUT("P subtype rc=%d\n", o ? 0 : -1);
+  } else if (!strncmp(line, "osindex ", 8)) {
+    /* renumber one object: lets a synthetic machine have the per-package core numbering of real Linux
+     * machines (two cores with the same os_index), which the synthetic syntax does not accept */
+    unsigned long long gp; unsigned os; hwloc_obj_t o = NULL;
+    if (topo && sscanf(line + 8, "%llu %u", &gp, &os) == 2 && (o = find_gp(gp)) && o->type != HWLOC_OBJ_NUMANODE && o->type != HWLOC_OBJ_PU)
+      o->os_index = os;
+    else o = NULL;
+    OUT("P osindex rc=%d\n", o ? 0 : -1);
+  } else if (!strncmp(line, "info ", 5)) {
+    unsigned idx; char name[64], value[128]; hwloc_obj_t o = NULL; int rc = -1;
+    if (topo && sscanf(line + 5, "%u %63s %127s", &idx, name, value) == 3 && (o = hwloc_get_obj_by_type(topo, HWLOC_OBJ_NUMANODE, idx)))
+      rc = hwloc_obj_add_info(o, name, value);
+    OUT("P info rc=%d\n", rc < 0 ? -1 : 0);
+  } else if (!strncmp(line, "env ", 4)) {
+    /* before synth: memory-tier knobs seen by hwloc_topology_load() of the synthetic topology */
+    OUT("P env rc=%d\n", push_env(line + 4) < 0 ? -1 : 0);
   } else if (!strcmp(line, "show")) {
     print_table();
   } else if (!strcmp(line, "start")) {
     started = 1;
+    pop_env(0);
+    print_tiers();
     print_table();
   } else {
     OUT("P badheader\n");
@@ -542,6 +608,7 @@ int main(void)
     if (!strcmp(line, "sync")) { OUT("S\n"); continue; }
     if (!strncmp(line, "case ", 5)) {
       if (topo) { hwloc_topology_destroy(topo); topo = NULL; }
+      pop_env(0);
       snprintf(casename, sizeof casename, "%s", line + 5);
       incase = 1; started = 0;
       OUT("P case %s\n", casename);
